@@ -74,8 +74,21 @@ def cmdChoiceNR : P String := do
   | some res => pure s!"picks {showNats res} | enough={if enough then 1 else 0}"
   | Option.none => pure s!"none | enough={if enough then 1 else 0}"
 
+/-- `simplebatchprop <b:int> <n> u… <rounds> (<us…>)×rounds`: the proportional branch with numpy's `choice` computed
+by the model from the uniform draws -/
+def cmdSimpleBatchProp : P String := do
+  let b ← int
+  let u ← listOf optFloat
+  let r ← nat
+  let uss ← many (listOf float) r
+  if hasInf Float.isInf u then pure (showErr .infinite)
+  else if b < 1 then pure (showErr .batchSize)
+  else
+    pure (match Ska.Seq.simpleBatchProp Float.isInf u b.toNat uss with
+      | .ok rs => showRows rs | .error e => showErr e)
+
 def handlers : List (String × P String) :=
-  [ ("choicenr", cmdChoiceNR), ("randargmax", cmdRandArg true), ("randargmin", cmdRandArg false),
+  [ ("choicenr", cmdChoiceNR), ("simplebatchprop", cmdSimpleBatchProp), ("randargmax", cmdRandArg true), ("randargmin", cmdRandArg false),
     ("randargmax_rows", cmdRandArgRows true), ("randargmin_rows", cmdRandArgRows false),
     ("randargmax_flat2", cmdRandArgFlat2 true), ("randargmin_flat2", cmdRandArgFlat2 false),
     ("simplebatch", cmdSimpleBatch) ]
